@@ -450,6 +450,8 @@ fn item_to(bind: &mut ActionBind, item: &Item, emods: &Mods, econds: &Conds) {
         Item::Cardinal(keys) => to_each(bind, cardinal(keys), emods, econds),
         Item::Bidir(keys) => to_each(bind, bidirectional(keys), emods, econds),
         Item::Stick(index) => to_each(bind, stick(*index), emods, econds),
+        Item::Wasd => to_each(bind, Cardinal::wasd_keys(), emods, econds),
+        Item::Dpad => to_each(bind, Cardinal::dpad_buttons(), emods, econds),
     }
 }
 
@@ -460,6 +462,8 @@ fn item_set(item: &Item, emods: &Mods, econds: &Conds) -> DynSet {
         Item::Cardinal(keys) => each(cardinal(keys), emods, econds),
         Item::Bidir(keys) => each(bidirectional(keys), emods, econds),
         Item::Stick(index) => each(stick(*index), emods, econds),
+        Item::Wasd => each(Cardinal::wasd_keys(), emods, econds),
+        Item::Dpad => each(Cardinal::dpad_buttons(), emods, econds),
     }
 }
 
